@@ -26,12 +26,12 @@ Lemma segment_line_ok' line more col minCol pending need rest col2 W :
   | String c W' => is_fold_char c = true /\
                    match W' with
                    | EmptyString => c = newline
-                   | String n' r' => lay_ok more minCol minCol (Some c) n' r' = true
+                   | String n' r' => lay_ok false more minCol minCol (Some c) n' r' = true
                    end
   end ->
-  lay_ok (line :: more) col minCol pending need rest = true.
+  lay_ok false (line :: more) col minCol pending need rest = true.
 Proof.
-  intros Hl Hadj Hg HW. cbn [lay_ok]. rewrite Hl, Hadj, Hg.
+  intros Hl Hadj Hg HW. cbn [lay_ok andb]. rewrite Hl, Hadj, Hg.
   destruct W as [|c W']; [reflexivity|]. destruct HW as [Hf HW]. rewrite Hf.
   destruct W' as [|n' r']; [subst c; apply Ascii.eqb_refl|exact HW].
 Qed.
@@ -41,9 +41,9 @@ Lemma done_line_ok line more col minCol pending need rest col2 :
   slen line =? 0 = false ->
   adjust_col line col need rest = Some col2 ->
   snd (gscan (sdrop (Z.to_nat (col2 - 1)) line) need rest) = None ->
-  lay_ok (line :: more) col minCol pending need rest = true.
+  lay_ok false (line :: more) col minCol pending need rest = true.
 Proof.
-  intros Hl Hadj Hg. cbn [lay_ok]. rewrite Hl, Hadj.
+  intros Hl Hadj Hg. cbn [lay_ok andb]. rewrite Hl, Hadj.
   destruct (gscan (sdrop (Z.to_nat (col2 - 1)) line) need rest) as [m res]. cbn [snd] in Hg. subst res. reflexivity.
 Qed.
 
@@ -110,7 +110,7 @@ Lemma fm_rest_ok minCol last trailer after : forall mid c W',
   match W' with
   | EmptyString => c = newline
   | String n' r' =>
-      lay_ok (map (fun ks => (spaces (fst ks) ++ snd ks)%string) mid
+      lay_ok false (map (fun ks => (spaces (fst ks) ++ snd ks)%string) mid
               ++ (spaces (fst last) ++ snd last ++ trailer)%string :: after) minCol minCol (Some c) n' r' = true
   end.
 Proof.
@@ -154,7 +154,7 @@ Proof.
   repeat (apply andb_true_iff in H; destruct H as [H ?]).
   rename H into Hnn, H0 into Hlast, H1 into Hmid, H2 into Hm, H3 into Hmem, H4 into Hopen, H5 into Hf, H6 into Hns, H7 into Hasc.
   apply negb_true_iff in Hf. apply negb_true_iff in Hopen. apply negb_true_iff in Hmem. apply Z.leb_le in Hm.
-  unfold node_ok, fm_node, mksn0. cbn [sn_value sn_line sn_col sn_block sn_anchor].
+  unfold node_ok, fm_node, mksn0. cbn [sn_value sn_line sn_col sn_block sn_anchor sn_dq].
   unfold fm_value in *. rewrite Ef in *. cbn [append] in *.
   rewrite Hnn. cbn [andb].
   replace (1 <=? Z.of_nat (List.length (fm_pre p)) + 1) with true by (symmetry; apply Z.leb_le; lia).
